@@ -11,6 +11,9 @@ def colJ : Col → Json
   | .strs v => Json.arr (v.map txt).toArray
   | .floats v => Json.arr (v.map (fun b => Json.str ("t:" ++ String.ofList (b.map Char.ofNat)))).toArray
   | .intLists v => intListList v
+  | .bools v => boolList v
+  | .strLists v => Json.arr (v.map (fun r => Json.arr (r.map txt).toArray)).toArray
+  | .floatLists v => Json.arr (v.map (fun r => Json.arr (r.map (fun b => Json.str ("t:" ++ String.ofList (b.map Char.ofNat)))).toArray)).toArray
 
 def resJ (r : Nat × List Col) : Json :=
   Json.mkObj [("n", nat r.1), ("cols", Json.arr (r.2.map colJ).toArray)]
@@ -34,14 +37,30 @@ def handle (op : String) (j : Json) : Except String Json := do
     let via ← getStr j "via"
     let bs : Bytes := text.toList.map Char.toNat
     let viaOpen := via == "open"
-    let m := match parseFile fmt S viaOpen bs Gen.C02.vcfPosShift with
+    let flavour := (j.getObjValAs? String "flavour").toOption.getD "VCFBuffer"
+    let defsJ := (j.getObjVal? "info_defs").toOption
+    let defs : List (String × String) := match defsJ with
+      | some (Json.arr a) => a.toList.filterMap (fun kd => match kd with
+          | Json.arr #[Json.str k, Json.str d] => some (k, d)
+          | _ => none)
+      | _ => []
+    let extended := fmt == "vcf" && (defs != [] || flavour != "VCFBuffer" && flavour != "VCFWithInfoAsStringBuffer")
+    let m := if fmt == "vcf" then
+        match parseVcfX S Gen.C02.vcfPosShift flavour defs (if viaOpen then ensureNl (dropHeader S.comment bs) else bs) with
+        | .ok r =>
+          let infoJ := match r.info with
+            | .inl c => colJ c
+            | .inr cs => Json.mkObj (cs.map (fun kc => (kc.1, colJ kc.2)))
+          Json.mkObj [("n", nat r.n), ("cols", Json.arr ((r.fixed.map colJ) ++ [infoJ] ++ (match r.geno with | some g => [colJ g] | none => [])).toArray)]
+        | .error e => errJ e
+      else match parseFile fmt S viaOpen bs Gen.C02.vcfPosShift with
       | .ok r => resJ r
       | .error e => errJ e
     let s : Option Json :=
       if fmt = "fasta" then (specFasta bs).map resJ
       else match docKline.find? (·.1 == fmt) with
       | some (_, k, mk) => (specKline k mk bs).map resJ
-      | none => (specParse fmt viaOpen bs).map resJ
+      | none => if extended then none else (specParse fmt viaOpen bs).map resJ
     pure (reply m s)
   | _ => throw s!"C02: unknown op {op}"
 
